@@ -124,6 +124,43 @@ def _cli(cmd, text, timeout_s):
         os.unlink(fn)
 
 
+def string_lemmas(formulas):
+    """Valid facts of the theory of strings that z3's sequence solver does not derive by itself (sound to add: each is a tautology):
+    for constants c1 contained in c2:  contains(x, c2) -> contains(x, c1);  suffixof(c2, x) / prefixof(c2, x) -> contains(x, c2)."""
+    atoms = {}
+    consts = set()
+    seen = set()
+    stack = list(formulas)
+    while stack:
+        t = stack.pop()
+        if t.get_id() in seen:
+            continue
+        seen.add(t.get_id())
+        if z3.is_quantifier(t):
+            stack.append(t.body())
+            continue
+        if not z3.is_app(t):
+            continue
+        k = t.decl().kind()
+        if k in (z3.Z3_OP_SEQ_CONTAINS, z3.Z3_OP_SEQ_PREFIX, z3.Z3_OP_SEQ_SUFFIX):
+            a, b = t.arg(0), t.arg(1)
+            x, c = (a, b) if k == z3.Z3_OP_SEQ_CONTAINS else (b, a)
+            if z3.is_string_value(c):
+                atoms[(k, x.get_id(), c.as_string())] = (k, x, c)
+                consts.add(c.as_string())
+        if z3.is_string_value(t):
+            consts.add(t.as_string())
+        stack.extend(t.children())
+    lemmas = []
+    for (k, _, cs), (_, x, c) in atoms.items():
+        if k != z3.Z3_OP_SEQ_CONTAINS:
+            lemmas.append(z3.Implies(z3.SuffixOf(c, x) if k == z3.Z3_OP_SEQ_SUFFIX else z3.PrefixOf(c, x), z3.Contains(x, c)))
+        for d in consts:
+            if d and d != cs and d in cs:
+                lemmas.append(z3.Implies(z3.Contains(x, c), z3.Contains(x, z3.StringVal(d))))
+    return lemmas
+
+
 def discharge(ob, timeout_ms, seed=0, fallbacks=True):
     """-> (status, solver, ms, model|None) ; status in discharged|sat|unknown"""
     t0 = time.time()
@@ -143,6 +180,28 @@ def discharge(ob, timeout_ms, seed=0, fallbacks=True):
         return "discharged", "z3-5.1(api)", ms, None
     if r == z3.sat:
         return "sat", "z3-5.1(api)", ms, s.model()
+    if r == z3.unknown:
+        try:
+            lem = string_lemmas(list(ob.assumptions) + [ob.goal])
+        except Exception:  # noqa: BLE001
+            lem = []
+        if lem:
+            s2 = z3.Solver()
+            s2.set("timeout", timeout_ms)
+            for a in ob.assumptions:
+                s2.add(a)
+            for l in lem:
+                s2.add(l)
+            s2.add(z3.Not(ob.goal))
+            try:
+                r2_ = s2.check()
+            except z3.Z3Exception:
+                r2_ = z3.unknown
+            ms = int((time.time() - t0) * 1000)
+            if r2_ == z3.unsat:
+                return "discharged", "z3-5.1(api)+string-lemmas", ms, None
+            if r2_ == z3.sat:
+                return "sat", "z3-5.1(api)+string-lemmas", ms, s2.model()
     if not fallbacks:
         return "unknown", "z3-5.1(api)", ms, None
     # fall back to CLIs
